@@ -104,6 +104,10 @@ def generate(seed, tier, idx=0):
             cands = [ref.clock, ref.clock]
             for t in times[:5]:
                 cands += [t, t, t + 0.25, t - 0.25]
+                if prog["clock"] == "float" or prog.get("unit") == "s":
+                    # bounds one ulp before / after an event time
+                    import math as _m
+                    cands += [_m.nextafter(float(t), _m.inf), _m.nextafter(float(t), -_m.inf)]
             cands.append(ref.end)
             cands = [t for t in cands if ref.clock <= t <= ref.end]
             t = rng.choice(cands)
